@@ -152,3 +152,23 @@ func VHDevRepanic() {
 	vAssert(isErr && len(e.Error()) > 15 && e.Error()[:15] == "runtime error: ", "repanic: run-time panics carry a runtime.Error")
 	vCover("repanic done")
 }
+
+// VHDevClock: time.Now is an arbitrary non-decreasing clock; Before/After/Sub/Add run from source.
+func VHDevClock() {
+	t0 := time.Now()
+	t1 := time.Now()
+	vAssert(!t1.Before(t0) && t1.Sub(t0) >= 0, "clock: readings never go back")
+	deadline := t0.Add(time.Second)
+	vAssert(deadline.After(t0) && deadline.Sub(t0) == time.Second, "clock: Add and Sub agree")
+	n := 0
+	for time.Now().Before(deadline) && n < 3 {
+		n++
+	}
+	if n == 0 {
+		vCover("clock: deadline already passed at the first look")
+	}
+	if n == 3 {
+		vCover("clock: deadline not reached after three looks")
+	}
+	vAssert(time.Since(t0) >= 0, "clock: Since is not negative")
+}
